@@ -255,6 +255,7 @@ func InterpReplay(ld *Loaded, base *sym.State, j Job, v sym.Violation, prop stri
 	defer s.Close()
 	r := sym.NewRun(ld.Eng, s, "replay:"+j.Name())
 	r.Prop = prop
+	r.Relabel = j.H.Relabel
 	if j.H.Loop > 0 {
 		r.LoopBound = j.H.Loop
 	}
